@@ -183,7 +183,8 @@ PROPS["C15"] = {
 PROPS["C16"] = {
     "modules": ["SlogModel.Props.C16"],
     "components": [("cfg", 4000, 100000)],
-    "rule": "file-head level: the sample configuration with its schema size, orchestration keys, tag template and metric keys replaced by generated "
+    "rule": "input level: generated syslog input sections (address, level mapping of 0-10 entries, 0-2 extraction steps, possibly damaged) on a "
+            "schema that has the parser's nine fields or lacks one -> real sysloginput.Config.VerifyConfig + NewParser vs CfgFile.inputOK; file-head level: the sample configuration with its schema size, orchestration keys, tag template and metric keys replaced by generated "
             "ones (a key twice, a key in both lists, unknown / no keys, a tag variable that is no key, an empty or uncompilable tag, maxFields too small) -> real "
             "run.NewLoaderFromConfigFile + instantiation vs CfgFile.verify; output-section level: generated serialization / upstream sections (1-3 environment fields, 0-3 hidden fields, 0-3 rewriter "
             "chains inline* + copy|unescape on any field incl. hidden and environment ones, each part damaged with a few percent probability: unknown / empty "
@@ -205,13 +206,15 @@ PROPS["C16"] = {
                   "message mode, upstream - is instantiated by NewEventSerializer / NewRewritersFromConfig / the rewriters' NewRewriter without "
                   "reaching a panic site or an error value); C16_file_head_verify_sound (Model/CfgFile.lean: schema, by-key-set orchestration "
                   "keys and tag, metric keys as ParseConfigFile checks them never reach NewOrchestrator's Panicf sites, MustCreateFieldLocators or the "
-                  "Prometheus client's panic on a repeated label name). The YAML / section-presence glue is decided "
+                  "Prometheus client's panic on a repeated label name); C16_input_verify_sound (a syslog input section that VerifyConfig accepts gives "
+                  "every connection its parser and extraction transforms without reaching MustNewParser's panic or a Must site of a step). The YAML / "
+                  "section-presence glue is decided "
                   "by the correspondence run, where the property itself (error value, never a crash) is the oracle.",
     "level_note": "Trusted: Lean kernel + 3 standard axioms; sampled correspondence of Cfg.verifySteps with the real VerifyConfig "
-                  "methods; the text-level template parser and YAML decoding are exercised, not modelled. Input "
-                  "and buffer sections, the singleton orchestrator and the Datadog output are covered by the file-level mutation run and the must-site inventory, not by a "
+                  "methods; the text-level template parser and YAML decoding are exercised, not modelled. The "
+                  "buffer section, the singleton orchestrator and the Datadog output are covered by the file-level mutation run and the must-site inventory, not by a "
                   "Lean model.",
-    "partial": "verification logic of the input and buffer sections, the singleton orchestrator and the Datadog output not modelled in Lean",
+    "partial": "verification logic of the buffer section, the singleton orchestrator and the Datadog output not modelled in Lean",
     "assumptions": [],
 }
 
